@@ -192,7 +192,12 @@ VP_INLINE void do_op1(int op, int val) noexcept
         }
         case OP_MODIFY: {
 #if ORDERED
-            g_w->modify([](P2& p) noexcept { rmw(p); });
+            if (val & 1) {
+                g_w->modify([](P2& p) noexcept { rmw(p); });                      // void overload
+            } else {
+                int r = g_w->modify([](P2& p) noexcept { rmw(p); return p.a; });  // value-returning overload (separate template)
+                vp_assert(r > 0, 103);
+            }
 #endif
             break;
         }
@@ -230,10 +235,19 @@ VP_INLINE void do_op1(int op, int val) noexcept
         case OP_CLOCK_READ: {
 #if ORDERED
             vp_intent_shared(SHARED_CAPABLE);
-            g_w->read([](const P2& p) noexcept {
-                vp_intent_shared(0);
-                rd(p);
-            });
+            if (val & 1) {
+                g_w->read([](const P2& p) noexcept {
+                    vp_intent_shared(0);
+                    rd(p);
+                });
+            } else {
+                int r = g_w->read([](const P2& p) noexcept {                      // value-returning overload
+                    vp_intent_shared(0);
+                    rd(p);
+                    return p.a;
+                });
+                (void)r;
+            }
 #elif HAS_SHARED
             vp_intent_shared(SHARED_CAPABLE);
             auto h = const_cast<const W*>(g_w)->lock();
